@@ -31,6 +31,12 @@ func (ex *Exec) step(fr *frame, st *State, reach *Term, instr ssa.Instruction, e
 	case *ssa.UnOp:
 		switch in.Op {
 		case token.MUL:
+			if g, isG := in.X.(*ssa.Global); isG {
+				if f := ex.eng.constFuncGlobal(g); f != nil {
+					fr.env[in] = &FuncVal{fn: f}
+					return reach
+				}
+			}
 			p := ex.operand(fr, in.X)
 			ex.derefCheck(fr, st, &reach, p, in, "load")
 			v := ex.load(st, p, in.Type())
